@@ -360,4 +360,242 @@ theorem beginBlock_strong (s : State) (dt : Nat) (hi : Inv s) (hst : StrongS s) 
     ⟨Inv_frame hi rfl rfl rfl rfl (Same.ginv (s := s) ⟨rfl, rfl, rfl, rfl⟩ hi.ginv), StrongS_frame hst rfl rfl rfl⟩
   exact (epochTick_J _ 2 (epochTick_J _ 1 (epochTick_J _ 0 h0))).2
 
+/-! ### messages -/
+
+/-- the excluded step: terminating a stream that an epoch pointer names in the middle of its records -/
+def Op.termOK (s : State) : Op → Prop
+  | .terminateStream id => ∀ p ∈ s.ptrs, p.gaugeId = 0 ∨ p.streamId ≠ id
+  | _ => True
+
+instance (s : State) (op : Op) : Decidable (op.termOK s) := by
+  cases op <;> (unfold Op.termOK; infer_instance)
+
+/-- along the history, no termination hits a stream under an epoch pointer (decidable: the model is executable) -/
+def TermSafe : State → List Op → Prop
+  | _, [] => True
+  | s, op :: rest => op.termOK s ∧ TermSafe (step s op).2 rest
+
+def TermSafe.dec : (s : State) → (ops : List Op) → Decidable (TermSafe s ops)
+  | _, [] => isTrue trivial
+  | s, op :: rest =>
+    have := TermSafe.dec (step s op).2 rest
+    by unfold TermSafe; exact inferInstance
+
+instance (s : State) (ops : List Op) : Decidable (TermSafe s ops) := TermSafe.dec s ops
+
+theorem getD_mem_or_default (ps : List Pointer) (e : Nat) (d : Pointer) : ps.getD e d ∈ ps ∨ ps.getD e d = d := by
+  simp only [List.getD_eq_getElem?_getD]
+  cases h : ps[e]? with
+  | none => exact Or.inr rfl
+  | some p => exact Or.inl (List.mem_of_getElem? h)
+
+theorem terminateStream_strong (s : State) (id : Nat) (hs : SStruct s) (hst : StrongS s)
+    (hok : ∀ p ∈ s.ptrs, p.gaugeId = 0 ∨ p.streamId ≠ id) : StrongS (terminateStream s id).2 := by
+  unfold terminateStream
+  cases hg : getStream s id with
+  | none => exact hst
+  | some st =>
+    simp only
+    split
+    · exact hst
+    · cases hm : moveToFinished s (st.isActive s.now) st with
+      | none => exact hst
+      | some s' =>
+        simp only
+        have hidd : st.id = id := by
+          obtain ⟨_, _, _, h1, _⟩ := getS_some hs.sid (show getS s.streams id = some st from hg)
+          exact h1
+        unfold moveToFinished at hm
+        cases hd : Refs.del (if st.isActive s.now = true then s.active else s.upcoming) st.start st.id with
+        | none => simp [hd] at hm
+        | some r =>
+          simp only [hd] at hm
+          cases ha : Refs.add s.finished st.start st.id with
+          | none => simp [ha] at hm
+          | some f =>
+            simp only [ha] at hm
+            by_cases hact : st.isActive s.now = true
+            · simp only [hact, if_true, Option.some.injEq] at hm hd
+              rw [← hm]
+              obtain ⟨n1, _, _⟩ := List.nodup_append.1 hs.nodup
+              obtain ⟨_, _, k3⟩ := Refs.del_spec (fun _ => 0) _ _ _ _ hd
+              obtain ⟨_, k4⟩ := k3 n1
+              intro e
+              show PtrStrong { s with active := r, finished := f } e (s.ptrs.getD e Pointer.last)
+              rcases hst e with k | ⟨y, g1, g2, g3⟩ | k
+              · exact Or.inl k
+              · rcases getD_mem_or_default s.ptrs e Pointer.last with hmem | hdef
+                · rcases hok _ hmem with k | k
+                  · exact Or.inl k
+                  · exact Or.inr (Or.inl ⟨y, g1, (k4 _).2 ⟨g2, by rw [hidd]; exact k⟩, g3⟩)
+                · exact Or.inr (Or.inr hdef)
+              · exact Or.inr (Or.inr k)
+            · have hact' : st.isActive s.now = false := by simpa using hact
+              simp only [hact', Bool.false_eq_true, if_false, Option.some.injEq] at hm
+              rw [← hm]
+              exact StrongS_frame hst rfl rfl rfl
+
+theorem createStream_strong (s : State) (hs : SStruct s) (sp : Bool) (c : Coins) (rs : List Rec) (st e n : Nat) (hst : StrongS s) :
+    StrongS (createStream s sp c rs st e n).2 := by
+  unfold createStream
+  split
+  · exact hst
+  · split
+    · exact hst
+    · split
+      · exact hst
+      · cases hm : moduleToDistribute s with
+        | none => exact hst
+        | some alloc =>
+          simp only
+          cases hf : Coins.sub? (s.bank.get streamerAddr) alloc with
+          | none => exact hst
+          | some free =>
+            simp only
+            split
+            · exact hst
+            · split
+              · exact hst
+              · cases hu : Refs.add s.upcoming (if st < s.now then s.now else st) (s.streams.length + 1) with
+                | none => exact hst
+                | some u =>
+                  simp only
+                  intro e'
+                  have h0 := hst e'
+                  show PtrStrong _ e' (s.ptrs.getD e' Pointer.last)
+                  generalize s.ptrs.getD e' Pointer.last = q at h0 ⊢
+                  rcases h0 with k | ⟨y, g1, g2, g3⟩ | k
+                  · exact Or.inl k
+                  · right; left
+                    refine ⟨y, ?_, g2, g3⟩
+                    show getS (s.streams ++ [_]) q.streamId = some y
+                    obtain ⟨h1, hk, _⟩ := getS_some hs.sid g1
+                    rw [getS_append_old _ _ _ (by omega)]
+                    exact g1
+                  · exact Or.inr (Or.inr k)
+
+theorem createGauge_sframe (s : State) (o : Nat) (p : Bool) (d du : Nat) (hs : Bool) (c : Coins) (st n : Nat) :
+    (createGauge s o p d du hs c st n).2.streams = s.streams ∧ (createGauge s o p d du hs c st n).2.active = s.active ∧
+    (createGauge s o p d du hs c st n).2.ptrs = s.ptrs := by
+  unfold createGauge
+  split
+  · exact ⟨rfl, rfl, rfl⟩
+  · split
+    · exact ⟨rfl, rfl, rfl⟩
+    · split
+      · exact ⟨rfl, rfl, rfl⟩
+      · split <;> exact ⟨rfl, rfl, rfl⟩
+
+theorem poolGaugesLoop_sframe (denom : Nat) (hs : Bool) : ∀ (ds : List Nat) (s : State),
+    (poolGaugesLoop denom hs ds s).2.streams = s.streams ∧ (poolGaugesLoop denom hs ds s).2.active = s.active ∧
+    (poolGaugesLoop denom hs ds s).2.ptrs = s.ptrs := by
+  intro ds
+  induction ds with
+  | nil => intro s; exact ⟨rfl, rfl, rfl⟩
+  | cons d rest ih =>
+    intro s
+    unfold poolGaugesLoop
+    obtain ⟨e1, e2, e3⟩ := createGauge_sframe s streamerAddr true denom d hs [] s.now 1
+    generalize createGauge s streamerAddr true denom d hs [] s.now 1 = res at e1 e2 e3
+    obtain ⟨o, s1⟩ := res
+    cases o with
+    | ok =>
+      simp only
+      obtain ⟨f1, f2, f3⟩ := ih s1
+      exact ⟨by rw [f1, e1], by rw [f2, e2], by rw [f3, e3]⟩
+    | invalid => exact ⟨e1, e2, e3⟩
+    | err => exact ⟨e1, e2, e3⟩
+    | panic => exact ⟨e1, e2, e3⟩
+    | halt => exact ⟨e1, e2, e3⟩
+
+theorem addToGauge_sframe (s : State) (o gid : Nat) (c : Coins) :
+    (addToGauge s o gid c).2.streams = s.streams ∧ (addToGauge s o gid c).2.active = s.active ∧
+    (addToGauge s o gid c).2.ptrs = s.ptrs := by
+  unfold addToGauge
+  split
+  · exact ⟨rfl, rfl, rfl⟩
+  · cases hg : getGauge s gid with
+    | none => exact ⟨rfl, rfl, rfl⟩
+    | some g =>
+      simp only
+      split
+      · exact ⟨rfl, rfl, rfl⟩
+      · cases hb : s.bank.send o incAddr c with
+        | none => exact ⟨rfl, rfl, rfl⟩
+        | some b => exact ⟨rfl, rfl, rfl⟩
+
+/-- **one step keeps the pointer invariant** (`LiveS` is needed by the EndBlock only) -/
+theorem step_strong (s : State) (op : Op) (hi : Inv s) (hl : LiveS s) (hst : StrongS s) (hr : op.noRetarget) (ht : op.termOK s) :
+    StrongS (step s op).2 := by
+  unfold step
+  split
+  · exact hst
+  · cases op with
+    | begin dt => exact beginBlock_strong s dt hi hst
+    | end_ =>
+      simp only
+      cases he : streamerEndBlock s with
+      | ok s' => exact endBlock_strong s s' hi hl hst he
+      | error e => exact StrongS_frame hst rfl rfl rfl
+    | setMaxIter n => exact StrongS_frame hst rfl rfl rfl
+    | fund a c => exact StrongS_frame hst rfl rfl rfl
+    | locks ls => exact StrongS_frame hst rfl rfl rfl
+    | rollapp r o l => exact StrongS_frame hst rfl rfl rfl
+    | rollappGauge r =>
+      simp only
+      unfold createRollappGauge
+      cases hra : s.rollapps[r]? with
+      | none => exact hst
+      | some ra =>
+        simp only
+        split
+        · exact hst
+        · exact StrongS_frame hst rfl rfl rfl
+    | createGauge o p d du hs c st n =>
+      obtain ⟨e1, e2, e3⟩ := createGauge_sframe s o p d du hs c st n
+      exact StrongS_frame hst e1 e2 e3
+    | addToGauge o g c =>
+      obtain ⟨e1, e2, e3⟩ := addToGauge_sframe s o g c
+      exact StrongS_frame hst e1 e2 e3
+    | createStream sp c rs st e n => exact createStream_strong s hi.struct sp c rs st e n hst
+    | terminateStream id => exact terminateStream_strong s id hi.struct hst ht
+    | replaceDistr id rs => exact absurd hr (by unfold Op.noRetarget; exact fun x => x)
+    | updateDistr id rs => exact absurd hr (by unfold Op.noRetarget; exact fun x => x)
+    | distribution rs => exact StrongS_frame hst rfl rfl rfl
+    | poolGauges d hs =>
+      obtain ⟨e1, e2, e3⟩ := poolGaugesLoop_sframe d hs lockableDurations s
+      exact StrongS_frame hst e1 e2 e3
+
+theorem init_strong (now mi : Nat) : StrongS (init now mi) := by
+  intro e
+  right; right
+  show ([Pointer.last, Pointer.last, Pointer.last] : List Pointer).getD e Pointer.last = Pointer.last
+  match e with
+  | 0 => rfl
+  | 1 => rfl
+  | 2 => rfl
+  | _ + 3 => rfl
+
+/-- **both invariants along every admissible history** without sponsored streams and without the termination of a
+    stream under an epoch pointer -/
+theorem run_live_strong : ∀ (ops : List Op) (s : State), Inv s → NamedS s → StrongS s →
+    (∀ op ∈ ops, op.wf ∧ op.wfS ∧ op.noRetarget) → (∀ op ∈ ops, op.notSponsored) → TermSafe s ops →
+    (run s ops).streams.length < maxU64 → Inv (run s ops) ∧ NamedS (run s ops) ∧ StrongS (run s ops) := by
+  intro ops
+  induction ops with
+  | nil => intro s hi hn hst _ _ _ _; exact ⟨hi, hn, hst⟩
+  | cons op rest ih =>
+    intro s hi hn hst hw hns hts hlen
+    unfold run at hlen ⊢
+    obtain ⟨w1, w2, w3⟩ := hw op List.mem_cons_self
+    have hw' : ∀ o ∈ rest, o.wf ∧ o.wfS ∧ o.noRetarget := fun o ho => hw o (List.mem_cons_of_mem _ ho)
+    have hsst := step_sstep s op hi.ginv hi.struct w1 w2
+    have hg1 := step_ginv s op hi.ginv w1
+    have hm := (run_struct_mono rest _ hg1 hsst.struct (fun o ho => ⟨(hw' o ho).1, (hw' o ho).2.1⟩)).2
+    have hl1 : (step s op).2.streams.length < maxU64 := Nat.lt_of_le_of_lt hm.1 hlen
+    exact ih _ (step_inv s op hi w1 w2 w3 hl1)
+      (step_named s op (idsT_of_idsOK _ hi.ginv.ids) hn w3 (hns op List.mem_cons_self))
+      (step_strong s op hi (liveS_of_named s hn) hst w3 hts.1) hw'
+      (fun o ho => hns o (List.mem_cons_of_mem _ ho)) hts.2 hlen
+
 end DymVerif.Incent
